@@ -4,4 +4,4 @@ From Zix Require Import FaultSpec AllocModel.
 Separate Extraction FaultSpec.tol_run FaultSpec.exact_step FaultSpec.log_ok FaultSpec.log_run
   AllocModel.ring_new AllocModel.ring_free AllocModel.one_block AllocModel.caller_free
   AllocModel.create_directories AllocModel.realloc_chain AllocModel.copy_file_block
-  AllocModel.file_equals_blocks AllocModel.tree_life AllocModel.ast0 AllocModel.log.
+  AllocModel.file_equals_blocks AllocModel.tree_life AllocModel.ast0 AllocModel.log AllocModel.default_trace.
